@@ -228,18 +228,33 @@ func (s *metricSchemaStore) Flush() error {
 	if err != nil {
 		return err
 	}
-	err = s.immutable.WalkEntry(func(key uint32, value *metric.Schema) error {
-		if !value.NeedWrite() {
-			return nil
+	// a schema of the immutable store may also be in the mutable store, fields/tag keys are appended to it
+	// while it is written: write a copy taken under the lock, and mark as persisted exactly what was written
+	type written struct {
+		key    uint32
+		schema *metric.Schema // the live schema
+		copy   *metric.Schema // what is written
+	}
+	var writes []written
+	s.lock.RLock()
+	_ = s.immutable.WalkEntry(func(key uint32, value *metric.Schema) error {
+		if value.NeedWrite() {
+			writes = append(writes, written{key: key, schema: value, copy: &metric.Schema{
+				Fields:  append(field.Metas{}, value.Fields...),
+				TagKeys: append(tag.Metas{}, value.TagKeys...),
+			}})
 		}
-		flusher.Prepare(key)
-		if err0 := flusher.Write(value); err0 != nil {
-			return err0
-		}
-		return flusher.Commit()
+		return nil
 	})
-	if err != nil {
-		return err
+	s.lock.RUnlock()
+	for _, w := range writes {
+		flusher.Prepare(w.key)
+		if err = flusher.Write(w.copy); err != nil {
+			return err
+		}
+		if err = flusher.Commit(); err != nil {
+			return err
+		}
 	}
 	err = flusher.Close()
 	if err != nil {
@@ -248,11 +263,15 @@ func (s *metricSchemaStore) Flush() error {
 	verifGate("schemastore.flushed")
 
 	s.lock.Lock()
-	// mark schema persisted
-	_ = s.immutable.WalkEntry(func(_ uint32, value *metric.Schema) error {
-		value.MarkPersisted()
-		return nil
-	})
+	// mark persisted what was written(fields/tag keys are only appended)
+	for _, w := range writes {
+		for idx := range w.copy.Fields {
+			w.schema.Fields[idx].Persisted = true
+		}
+		for idx := range w.copy.TagKeys {
+			w.schema.TagKeys[idx].Persisted = true
+		}
+	}
 	s.immutable = nil
 	s.cache.Purge()
 	s.lock.Unlock()
